@@ -118,11 +118,15 @@ def case_weight(case):
     return sum(sum(M["n"]) for M in case["levels"]) * (1 + sum(len(M.get("parts", [])) for M in case["levels"][:1]) // 8)
 
 
-def run_tlc_batches(chk, module, envname, cases, tag, max_procs=6, target_weight=60000, timeout=1500, xmx="3g", weight=case_weight):
+def run_tlc_batches(chk, module, envname, cases, tag, max_procs=6, target_weight=None, timeout=1500, xmx="3g", weight=case_weight):
     """write the cases into batches (ndjson), run one TLC process per batch in parallel, return {id: verdict-record}"""
     gdir = os.path.join(vlib.BUILD, "gen", chk.pid)
     os.makedirs(gdir, exist_ok=True)
     cases = sorted(cases, key=weight, reverse=True)
+    if target_weight is None:
+        # about two rounds of batches per process: a TLC start costs ~4 s (JVM, parsing, constant tables)
+        total = sum(weight(c) for c in cases)
+        target_weight = max(total // (2 * max_procs) + 1, 20000)
     batches, cur, w = [], [], 0
     for c in cases:
         cw = weight(c)
